@@ -48,6 +48,10 @@ def classify(ev, events, pos):
         feats.append("path-function")
     if re.search(r"\bunwind\s+\(*\s*id\s*\(", low):
         feats.append("unwind-of-id")
+    if re.search(r"\b(starts\s+with|ends\s+with|contains)\s+\(*\s*id\s*\(", low):
+        feats.append("string-operator-on-id")
+    if re.search(r"\{[^}]*\b(any|all|none|single)\s*\(", low):
+        feats.append("quantifier-in-inline-map")
     # a projection item that is a conjunction / disjunction (the translator splits it into an item and a filter)
     for m in re.finditer(r"\b(return|with)\b(.*?)(?=\b(?:optional\s+match|match|unwind|with|create|merge|set|detach\s+delete|delete|remove|return|order\s+by|where)\b|$)", low):
         if re.search(r"\b(and|or|xor)\b", m.group(2)) and not re.search(r"\bwhere\b", m.group(2)):
